@@ -36,7 +36,7 @@ InitObs == /\ idx \in 1..Len(ObsLines)
            /\ LET S == ObsLines[idx].state IN
               /\ main = GraphOf(S.main) /\ staging = GraphOf(S.staging) /\ hs = S.hs
               /\ ref = Fn(S.ref) /\ fee = Fn(S.fee) /\ size = Fn(S.size) /\ snap = S.snap /\ bb = S.bb
-              /\ acc = S.cfg.acc /\ step = 0
+              /\ acc = S.cfg.acc /\ step = 0 /\ script = <<>> /\ sel = 0
            /\ lastAct = <<"observed", idx>> /\ lastRes = "none"
 Stutter == UNCHANGED <<vars, idx>>
 
